@@ -45,6 +45,7 @@ class Gen:
         self.p = dict(funcs=funcs, ginit=[r.random() < 0.5 for _ in range(ngl)], gpkg=[r.randrange(npk) for _ in range(ngl)], npkgs=npk)
         self.next_d = 1
         self.next_cs = 1
+        self.resets = {}
         if self.simple:
             # a call tree: function g >= 1 is called once, from a function of smaller index and a package that sees it
             for g in range(1, nf):
@@ -62,6 +63,8 @@ class Gen:
                 funcs[f]["body"] = self.contract_body()
             else:
                 funcs[f]["body"] = self.block(r.randint(2, 6), 0, True)
+            if f in getattr(self, "resets", {}):
+                funcs[f]["body"] = M.seq([("assign", self.resets[f], "nil")] + M.flatten(funcs[f]["body"]))
         return self.p
 
     def simple_body(self, f):
@@ -91,7 +94,23 @@ class Gen:
         p0 = L(0)
         good = lambda: r.choice(["new", p0, p0])
         any_ = lambda: r.choice(["nil", "new", p0, self.var()])
-        shape = r.randrange(7)
+        shape = r.randrange(8)
+        gvs = [v for v in self.vars() if v[0] == "G"]
+        if shape == 7 and not gvs:
+            shape = r.randrange(7)
+        if shape == 7:
+            # the same package-level variable is read twice, nil-checked the first time, with a call in between that may
+            # re-assign it (an inference that carries the nilness of the first read over to the second is unsound)
+            g0 = r.choice(gvs)
+            fwd = [g for g in self.callees() if g > self.f and self.p["funcs"][g]["nparams"] == 0 and self.p["funcs"][g]["pkg"] >= self.p["gpkg"][g0[1]]]
+            mid = []
+            if fwd:
+                g = r.choice(fwd)
+                self.resets = getattr(self, "resets", {})
+                self.resets[g] = g0
+                mid = [("call", None, g, [], self.cs_id())]
+            return M.seq([("if", ("not", ("nonnil", p0)), ("return", "nil"), ("skip",)),
+                          ("if", ("not", ("nonnil", g0)), ("return", good()), ("skip",))] + mid + [("return", g0)])
         if shape >= 5:
             # a join of a path on which nothing is known about the returned value (package-level variable, call result)
             # with paths that decide it from the parameter (F27: the unknown path was dropped at the join)
@@ -1418,6 +1437,54 @@ def strip_guards(p):
 
     q = dict(p)
     q["funcs"] = [dict(fd, body=go(fd["body"])) for fd in p["funcs"]]
+    return q
+
+
+def isolate_globals(p, f):
+    """search helper: like isolate, but package-level variables stay package-level variables (renumbered, all
+    initialised non-nil) and the stub every call goes to also re-assigns each of them, to nil or to a fresh value
+    depending on opaque conditions: witnesses for inferences that trust a package-level variable across a call"""
+    fd = p["funcs"][f]
+    gl = sorted(set(x[1] for x in _vars_of(fd["body"]) if x[0] == "G"))
+    idx = {g: i for i, g in enumerate(gl)}
+    q = isolate(p, f)
+    back = lambda x: ("G", idx[x[1] - 60]) if isinstance(x, tuple) and x[0] == "L" and x[1] >= 60 and (x[1] - 60) in idx else x
+
+    def cd(c):
+        k = c[0]
+        if k == "nonnil":
+            return ("nonnil", back(c[1]))
+        if k == "cderef":
+            return ("cderef", c[1], back(c[2]))
+        if k == "not":
+            return ("not", cd(c[1]))
+        if k in ("and", "or"):
+            return (k, cd(c[1]), cd(c[2]))
+        return c
+
+    def go(s):
+        k = s[0]
+        if k == "seq":
+            return ("seq", go(s[1]), go(s[2]))
+        if k == "assign":
+            return ("assign", back(s[1]), back(s[2]))
+        if k == "call":
+            return ("call", back(s[1]) if s[1] is not None else None, s[2], s[3], s[4])
+        if k == "deref":
+            return ("deref", s[1], back(s[2]))
+        if k == "if":
+            return ("if", cd(s[1]), go(s[2]), go(s[3]))
+        if k == "while":
+            return ("while", cd(s[1]), go(s[2]))
+        if k == "return":
+            return ("return", back(s[1]))
+        return s
+
+    body = M.flatten(q["funcs"][1]["body"])[len(gl):]       # drop the calls that filled the local stand-ins
+    q["funcs"][1]["body"] = M.seq([go(x) for x in body])
+    stub = [("if", ("opaque",), ("assign", ("G", i), "nil"), ("assign", ("G", i), "new")) for i in range(len(gl))]
+    q["funcs"][2]["body"] = M.seq(stub + M.flatten(q["funcs"][2]["body"]))
+    q["ginit"], q["gpkg"] = [True] * len(gl), [0] * len(gl)
     return q
 
 
